@@ -102,6 +102,24 @@ def can_carry_path(prog, ty_ix, _seen=None, _memo={}):
     return res
 
 
+class _CtxBody(object):
+    """A body seen in one calling context: same code, its own value-flow nodes."""
+
+    def __init__(self, body, ctxid, depth, chain):
+        self._b = body
+        self.path = ctxid
+        self._ctx_of = body.path
+        self._ctx_owner = body.path
+        self._ctx_depth = depth
+        self._ctx_chain = chain
+
+    def local_key(self, l):
+        return (self.path, l)
+
+    def __getattr__(self, name):
+        return getattr(self._b, name)
+
+
 class VFG(object):
     def __init__(self, prog, admit_paths_only=False):
         self.prog = prog
@@ -171,15 +189,167 @@ class VFG(object):
     # ---- construction ----
     def _build(self):
         prog = self.prog
-        for body in prog.bodies.values():
-            for bb in body.normal_blocks():
-                for s in body.stmts(bb):
-                    if s["k"] != "assign":
-                        continue
-                    self._assign(body, s["lhs"], s["rv"])
-                t = body.blocks[bb]["term"]
-                if t["k"] == "call":
-                    self._call(body, bb, t)
+        self._clones = {}
+        self.no_label = set()
+        for body in list(prog.bodies.values()):
+            self._build_body((self._spec_view(body) if self.admit_paths_only else None) or body)
+
+    # ---- path constructors that pick the name by a selector ----
+    # `let under_root = |e: RootEntry| root.join(e.file_name()); .. under_root(RootEntry::Lockfile)`: which file a path
+    # names is decided by a literal at the call site, inside a helper that joins "whatever name it is given".  The caller
+    # of such a helper is analysed on a flat view with the helper (and the small functions it calls) inlined per call
+    # site and its `match` on the literal decided, so that every `join` sees the one name it is given there.
+    def _name_dependent(self, tgt, depth=0):
+        memo = self.__dict__.setdefault("_nd_memo", {})
+        if tgt.path in memo:
+            return memo[tgt.path]
+        memo[tgt.path] = False
+        prog = self.prog
+        from .core import Site
+        res = False
+        if len(tgt.blocks) <= 80 and (tgt.is_closure or not tgt.reachable):
+            for bb in tgt.normal_blocks():
+                t = tgt.blocks[bb]["term"]
+                if t["k"] != "call":
+                    continue
+                site = Site(tgt, bb, t)
+                p = site.path
+                if p in SPECIAL and SPECIAL[p] in (t_join, t_with_extension) and len(t["args"]) > 1:
+                    if _const_str(site, 1) is None and self._name_from_outside(tgt, t["args"][1]) and \
+                            not _arg_from_wal_template(self, site, 1) and \
+                            not _arg_from_call(site, 1, ("BlobHash::relative_path",)):
+                        res = True
+                elif depth < 2 and len(tgt.blocks) <= 20:
+                    # a thin wrapper around such a helper
+                    t2 = prog.local_target(site)
+                    if t2 is not None and t2.path != tgt.path and can_carry_path(prog, t2.locals[0]) and \
+                            self._name_dependent(t2, depth + 1):
+                        res = True
+        memo[tgt.path] = res
+        return res
+
+    def _name_from_outside(self, body, op):
+        """Does the operand derive (through moves, references and transparent conversions) from a parameter of the body
+        or from the result of a crate-local call?"""
+        prog = self.prog
+        from .core import Site
+        pl = place_of(op)
+        if pl is None:
+            return False
+        seen = set()
+        work = [pl["l"]]
+        while work:
+            l = work.pop()
+            if l in seen:
+                continue
+            seen.add(l)
+            if 1 <= l <= body.argc:
+                return True
+            for (bb, j, rv) in body.assignments().get(l, []):
+                if j == "term":
+                    if prog.local_target(Site(body, bb, rv)) is not None:
+                        return True
+                    if (term_path(rv) or "") in ("std::ops::Deref::deref", "std::convert::AsRef::as_ref",
+                                                   "std::clone::Clone::clone", "std::string::String::as_str"):
+                        for a in rv["args"]:
+                            p2 = place_of(a)
+                            if p2 is not None:
+                                work.append(p2["l"])
+                elif rv["k"] in ("use", "cast"):
+                    p2 = place_of(rv["op"])
+                    if p2 is not None:
+                        work.append(p2["l"])
+                elif rv["k"] == "ref":
+                    work.append(rv["place"]["l"])
+        return False
+
+    def _spec_view(self, body):
+        memo = self.__dict__.setdefault("_sv_memo", {})
+        if body.path not in memo:
+            memo[body.path] = None
+            memo[body.path] = self._spec_view0(body)
+        return memo[body.path]
+
+    def _spec_view0(self, body):
+        prog = self.prog
+        if getattr(body, "is_flat", False) or not hasattr(body, "blocks"):
+            return None
+        from .core import Site
+        hit = False
+        for bb in body.normal_blocks():
+            t = body.blocks[bb]["term"]
+            if t["k"] != "call":
+                continue
+            for (tgt, how) in prog.call_targets(Site(body, bb, t)):
+                if how == "direct" and tgt.path != body.path and self._name_dependent(tgt):
+                    hit = True
+        if not hit:
+            return None
+        from . import flat as flatmod
+        approved = set()
+
+        def policy(site, tgt, how):
+            if how != "direct" or len(tgt.blocks) > 80:
+                return False
+            if self._name_dependent(tgt) or (site.body.path in approved and (tgt.is_closure or not tgt.reachable)):
+                approved.add(tgt.path)
+                return True
+            return False
+        V = flatmod.flatten(prog, body, policy, 3, thread_calls=True)
+        if not V.inlined:
+            return None
+        V.lorigin = []          # every inlined copy has value-flow nodes of its own (the root's locals keep their numbers)
+        V._spec_view = True
+        self.__dict__.setdefault("spec_views", {})[body.path] = V
+        return V
+
+    def _build_body(self, body):
+        for bb in body.normal_blocks():
+            for s in body.stmts(bb):
+                if s["k"] != "assign":
+                    continue
+                self._assign(body, s["lhs"], s["rv"])
+            t = body.blocks[bb]["term"]
+            if t["k"] == "call":
+                self._call(body, bb, t)
+
+    # ---- one level of call-site sensitivity for small private helpers that hand a path-carrying value back ----
+    # `list_dir(cas_root)` and `list_dir(staging_root)` must not make everything read through the helper "a CAS *and*
+    # staging entry": such a helper is analysed once more per call site, and the caller takes the result of its own copy.
+    # (What happens *inside* the helper is still judged on the merged copy, with the union of all callers.)
+    def _clone_for(self, body, bb, tgt, how):
+        if not self.admit_paths_only or how != "direct" or tgt.is_closure or tgt.reachable:
+            return None
+        depth = getattr(body, "_ctx_depth", 0)
+        if depth >= 2 or len(tgt.blocks) > 80 or tgt.path in getattr(body, "_ctx_chain", ()):
+            return None
+        prog = self.prog
+        if not can_carry_path(prog, tgt.locals[0]) or prog.ty_str(tgt.locals[0]) in ("()",):
+            return None
+        if not any(can_carry_path(prog, tgt.locals[i]) for i in range(1, tgt.argc + 1)):
+            return None
+        ctxid = "%s@@%s:%d" % (tgt.path, body.path, bb)
+        if ctxid not in self._clones:
+            cb = _CtxBody(self._spec_view(tgt) or tgt, ctxid, depth + 1, getattr(body, "_ctx_chain", ()) + (tgt.path,))
+            self._clones[ctxid] = cb
+            self._build_body(cb)
+        return ctxid
+
+    def _ctx_closure(self, body, cb):
+        """Inside a per-call-site copy of a helper, the closures the helper itself writes are copied with it."""
+        base = getattr(body, "_ctx_of", None)
+        if base is None or not cb.path.startswith(base.split("::{")[0]):
+            return cb.path
+        owner = getattr(body, "_ctx_owner", "")
+        if not cb.path.startswith(owner + "::{closure"):
+            return cb.path
+        ctxid = "%s@@%s" % (cb.path, body.path)
+        if ctxid not in self._clones:
+            c2 = _CtxBody(cb, ctxid, getattr(body, "_ctx_depth", 1), getattr(body, "_ctx_chain", ()))
+            c2._ctx_owner = owner
+            self._clones[ctxid] = c2
+            self._build_body(c2)
+        return ctxid
 
     def _assign(self, body, lhs, rv):
         dst = self.node_of_place(body, lhs)
@@ -222,7 +392,23 @@ class VFG(object):
         direct = [tg for tg, how in targets if how in ("direct", "param", "dyn")]
         path = site.path
         if direct:
+            hows = dict((tg.path, how) for tg, how in targets)
             for tgt in direct:
+                clone = self._clone_for(body, bb, tgt, hows.get(tgt.path)) if path not in (
+                    "std::ops::FnOnce::call_once", "std::ops::FnMut::call_mut", "std::ops::Fn::call") else None
+                if clone is not None:
+                    for i, a in enumerate(args):
+                        if i < tgt.argc:
+                            self.add_edge(self.node_of_operand(body, a), ("L", tgt.path, i + 1))     # merged copy
+                            self.add_edge(self.node_of_operand(body, a), ("L", clone, i + 1))
+                            if self._is_mut_ref(body, a):
+                                self.add_edge(("L", clone, i + 1), self.node_of_operand(body, a))
+                    self.add_edge(("L", clone, 0), dst)
+                    # the merged copy still *reaches* the caller (reachability queries walk `edges`), but its labels -
+                    # the union over all callers - do not travel along this edge
+                    self.add_edge(("L", tgt.path, 0), dst)
+                    self.no_label.add((("L", tgt.path, 0), dst))
+                    continue
                 if path in ("std::ops::FnOnce::call_once", "std::ops::FnMut::call_mut", "std::ops::Fn::call"):
                     # (closure, (args...)) : closure -> _1, tuple elements -> _2..
                     if args:
@@ -254,13 +440,14 @@ class VFG(object):
                 pl = place_of(a)
                 if pl and not pl["p"] and prog.closure_def_of_type(body.locals[pl["l"]]) == cb.path:
                     cb_node = self.node_of_operand(body, a)
+            cbp = self._ctx_closure(body, cb)
             if cb_node is not None:
-                self.add_edge(cb_node, ("L", cb.path, 1))
+                self.add_edge(cb_node, ("L", cbp, 1))
             for s in srcs:
                 if s is not None and s != cb_node:
                     for i in range(2, cb.argc + 1):
-                        self.add_edge(s, ("L", cb.path, i))
-            self.add_edge(("L", cb.path, 0), dst)
+                        self.add_edge(s, ("L", cbp, i))
+            self.add_edge(("L", cbp, 0), dst)
         if path in SPECIAL:
             self.transfers.append((SPECIAL[path], srcs, dst, site))
             return
@@ -298,7 +485,7 @@ class VFG(object):
             r = True
             prog = self.prog
             if node[0] == "L":
-                b = prog.bodies.get(node[1])
+                b = prog.bodies.get(node[1]) or self._clones.get(node[1])
                 if b is not None and node[2] < len(b.locals):
                     r = can_carry_path(prog, b.locals[node[2]])
             elif node[0] == "F":
@@ -330,6 +517,8 @@ class VFG(object):
                 n = work.popleft()
                 ls = labels[n]
                 for m in self.edges.get(n, ()):
+                    if (n, m) in self.no_label:
+                        continue
                     if not ls <= labels[m] and self.admits(m):
                         labels[m] |= ls
                         work.append(m)
@@ -371,6 +560,30 @@ def _const_str(site, i):
     c = a.get("const")
     if c is not None and "str" in c:
         return c["str"]
+    # a local that holds one string literal on every way here (the arm of an inlined `name_of(Kind::X)` that the view
+    # decided): the single assignment to it in reachable code, through moves
+    body = site.body
+    if not getattr(body, "_spec_view", False):
+        return None
+    pl = place_of(a)
+    live = body.__dict__.get("_live_blocks")
+    if live is None:
+        from . import cfgutil
+        live = cfgutil.reach(body, 0)
+        body.__dict__["_live_blocks"] = live
+    for _ in range(6):
+        if pl is None or pl["p"]:
+            return None
+        defs = [(bb, j, rv) for (bb, j, rv) in body.assignments().get(pl["l"], []) if bb in live]
+        if len(defs) != 1 or defs[0][1] == "term":
+            return None
+        rv = defs[0][2]
+        if rv["k"] not in ("use", "cast"):
+            return None
+        c = rv["op"].get("const")
+        if c is not None:
+            return c.get("str")
+        pl = place_of(rv["op"])
     return None
 
 
